@@ -91,6 +91,7 @@ Hypothesis Hsem1 : forall op, prefix_den p op (sem1 op).
 Notation SemDeg := (SemDeg V line p).
 Notation den := (den V p sem2 sem1 call_sem name_code).
 Variable c : cfg.
+Variable idom : list (option N).
 
 (* every element of the family *)
 Definition SemDegF (d : degree) (F : fam V) : Prop := forall i, SemDeg d (F i).
@@ -108,7 +109,7 @@ Qed.
 (* a selection, by data that do not depend on the valuation, among functions
    that all obey the bound *)
 Lemma select_general {X : Type} d (K : V -> X) (H : X -> V -> Z) :
-  (forall r r', K r = K r') -> (forall x, SemDeg d (H x)) -> SemDeg d (fun rho => H (K rho) rho).
+  (forall r r', K r = K r') -> (forall r, SemDeg d (H (K r))) -> SemDeg d (fun rho => H (K rho) rho).
 Proof.
   intros HK HH. destruct d; cbn [PolyDeg.SemDeg] in *.
   - intros r r'. rewrite (HK r r'). apply HH.
@@ -266,7 +267,7 @@ Proof.
     destruct (expr_deg f) as [rf|] eqn:Edf; [|cbn in H; discriminate].
     intros i.
     apply (select_general (snd rg) (C []) (fun x rho => if x =? 0 then Ff i rho else T i rho) HC).
-    intros x. destruct (x =? 0).
+    intros r0. destruct (C [] r0 =? 0).
     + apply (SemDeg_mono V line p (snd rf)); [eapply iter_opt_upper; [exact H|right; left; reflexivity]|].
       apply (IHf Ff eq_refl Hdf rf eq_refl).
     + apply (SemDeg_mono V line p (snd rt)); [eapply iter_opt_upper; [exact H|left; reflexivity]|].
@@ -297,7 +298,7 @@ Proof.
     intros i. unfold access_fam.
     apply (select_general (snd rv) (fun rho => map (fun Ix : V -> Z => Ix rho) Is ++ i) (fun x rho => A x rho)).
     + intros r r'. rewrite (Hconst r r'). reflexivity.
-    + intros x. apply (Hs v A Ev rv Erv).
+    + intros r0. apply (Hs v A Ev rv Erv).
   - (* element-wise update *)
     destruct (s v) as [A|] eqn:Ev; [|discriminate].
     match type of Hden with match ?t with Some _ => _ | None => _ end = _ => destruct t as [Is|] eqn:Ea; [|discriminate] end.
@@ -322,14 +323,25 @@ Proof.
     apply (select_general (snd rb) (fun rho => map (fun Ix : V -> Z => Ix rho) Is)
                           (fun x rho => match prefix_of x i with Some rest => R rest rho | None => A i rho end)).
     + intros r r'. apply Hconst.
-    + intros x. destruct (prefix_of x i); [apply HR|apply HA].
+    + intros r0. destruct (prefix_of _ i); [apply HR|apply HA].
 Qed.
 
 (* ---------- the step relation preserves fstore_ok ---------- *)
-Hypothesis Hvalid : djust_cfg c = true.
+Hypothesis Hvalid : djust_cfg c idom = true.
 
-Lemma stmt_djust s0 : In s0 (all_stmts (c_blocks c)) -> djust_stmt c s0 = true.
-Proof. unfold djust_cfg in Hvalid. rewrite forallb_forall in Hvalid. auto. Qed.
+Lemma stmt_in_block s0 : In s0 (all_stmts (c_blocks c)) -> exists b, In b (c_blocks c) /\ In s0 (b_stmts b).
+Proof. unfold all_stmts. rewrite in_flat_map. auto. Qed.
+
+Lemma stmt_djust_block b s0 : In b (c_blocks c) -> In s0 (b_stmts b) ->
+  djust_stmt c (block_ctl (c_blocks c) idom b) s0 = true.
+Proof.
+  intros Hb Hs. unfold djust_cfg in Hvalid. rewrite forallb_forall in Hvalid. specialize (Hvalid b Hb).
+  unfold djust_block in Hvalid. rewrite forallb_forall in Hvalid. auto.
+Qed.
+
+Lemma djust_stmt_nophi m s0 x op rhe sv st mm : s0 = SSubst mm x op rhe sv st -> is_phi_e rhe = false ->
+  djust_stmt c m s0 = true -> djust_expr c rhe = true.
+Proof. intros -> Hp. cbn [djust_stmt]. destruct rhe; try discriminate; auto. Qed.
 
 Lemma local_def_range_def v r s0 :
   local_def_range (all_stmts (c_blocks c)) v = Some r -> In s0 (all_stmts (c_blocks c)) -> ddef_ok v r s0 = true.
@@ -353,10 +365,20 @@ Proof.
   rewrite E. reflexivity.
 Qed.
 
-Lemma fstep_preserves s s' : fstore_ok s -> fstep V p sem2 sem1 call_sem name_code c s s' -> fstore_ok s'.
+Lemma last_in {A} (l : list A) (d : A) : l <> [] -> In (last l d) l.
+Proof.
+  induction l as [|x tl IH]; [congruence|]. intros _. destruct tl as [|y tl']; [left; reflexivity|].
+  right. apply IH. discriminate.
+Qed.
+
+Lemma phi_adjust_cases m o r : phi_adjust m o = Some r ->
+  (m = MConst /\ o = Some r) \/ snd r = DNonQuad.
+Proof. destruct m, o as [rg|]; cbn; try discriminate; intros [= <-]; [left; auto|right; reflexivity]. Qed.
+
+Lemma fstep_preserves s s' : fstore_ok s -> fstep V p sem2 sem1 call_sem name_code c idom s s' -> fstore_ok s'.
 Proof.
   intros Hok Hst. pose proof Hok as [Hs Hz]. destruct Hst as
-    [m x op rhe sv st F s Hin Hloc Hnp Hphi Hden | m x op args k sv st a F s Hin Hloc Hnp Ha Hsa | m x op rhe sv st s Hin Hloc Hnp];
+    [m x op rhe sv st F s Hin Hloc Hnp Hphi Hden | m x op args k sv st pick s Hin Hloc Hnp Hpa Hps Hpick | m x op rhe sv st s Hin Hloc Hnp];
     (split; [|intros y G Hu Hy; unfold fupd in Hy; destruct (vname_eqb x y) eqn:E;
                 [apply vname_eqb_eq in E; subst y; rewrite (assigned_not_unassigned _ _ _ _ _ _ Hin) in Hu; discriminate
                 |eapply Hz; eauto]]).
@@ -365,7 +387,8 @@ Proof.
       pose proof (local_def_range_def x r _ (var_range_local x r Hloc Hnp Hr) Hin) as Hd.
       cbn [ddef_ok] in Hd. rewrite vname_eqb_refl in Hd. apply andb_true_iff in Hd as [_ Hd].
       apply opt_drange_eqb_eq in Hd.
-      pose proof (stmt_djust _ Hin) as Hj. cbn [djust_stmt] in Hj.
+      destruct (stmt_in_block _ Hin) as (b & Hb & Hsb).
+      pose proof (djust_stmt_nophi _ _ _ _ _ _ _ _ eq_refl Hphi (stmt_djust_block b _ Hb Hsb)) as Hj.
       exact (djust_expr_sound s Hok rhe F Hden Hj r Hd).
     + eapply Hs; eauto.
   - intros y G Hy r Hr. unfold fupd in Hy. destruct (vname_eqb x y) eqn:E.
@@ -373,11 +396,39 @@ Proof.
       pose proof (local_def_range_def x r _ (var_range_local x r Hloc Hnp Hr) Hin) as Hd.
       cbn [ddef_ok] in Hd. rewrite vname_eqb_refl in Hd. apply andb_true_iff in Hd as [_ Hd].
       apply opt_drange_eqb_eq in Hd. unfold expr_deg in Hd. cbn [expr_know] in Hd.
-      pose proof (stmt_djust _ Hin) as Hj. cbn [djust_stmt djust_expr] in Hj.
+      destruct (stmt_in_block _ Hin) as (b & Hb & Hsb).
+      pose proof (stmt_djust_block b _ Hb Hsb) as Hj. cbn [djust_stmt] in Hj.
       pose proof (deg_claim_is_spec _ _ _ Hj Hd) as Hi.
-      (* the copied argument's range is below the infimum *)
-      destruct (iter_opt_all _ r (var_range c a) Hi (in_map _ _ _ Ha)) as (ra & Era & Hle).
-      intros i. apply (SemDeg_mono V line p (snd ra)); [exact Hle|]. apply (Hs a F Hsa ra Era).
+      destruct (phi_adjust_cases _ _ _ Hi) as [[Hm Hio]|Hnq]; [|intros i; rewrite Hnq; exact I].
+      (* the deciding condition is known constant: the same argument for every valuation *)
+      assert (Hconst : forall r1 r2, pick r1 = pick r2).
+      { assert (Hpb : phi_block_of c x b) by (split; [exact Hb|]; eauto 10).
+        specialize (Hpick b Hpb). unfold block_ctl in Hm. destruct (deciding (c_blocks c) idom b) as [|cond|] eqn:Edec; cbn [ctl_of] in Hm.
+        - exact Hpick.
+        - destruct (expr_deg cond) as [rc|] eqn:Erc; [|discriminate].
+          destruct (range_is_constant rc) eqn:Ecc; [|discriminate].
+          destruct (den s cond) as [C|] eqn:EC; [|exact Hpick]. apply Hpick.
+          (* the condition is a statement of the graph, hence validated *)
+          assert (Hjc : djust_expr c cond = true).
+          { unfold deciding in Edec. destruct (length (b_preds b) <? 2)%nat; [discriminate|].
+            assert (Hlast : forall bb, In bb (c_blocks c) -> last_cond bb = DecCond cond -> djust_expr c cond = true).
+            { intros bb Hbb Hl. unfold last_cond in Hl.
+              destruct (last (b_stmts bb) _) as [| mm cc tt ff | | | | |] eqn:El; try discriminate. injection Hl as ->.
+              assert (Hinl : In (SIf mm cond tt ff) (b_stmts bb)).
+              { rewrite <- El. apply last_in. intros Hnil. rewrite Hnil in El. cbn in El. discriminate. }
+              pose proof (stmt_djust_block bb _ Hbb Hinl) as Hjj. exact Hjj. }
+            destruct (existsb (fun q => N.leb (b_index b) q) (b_preds b)); [exact (Hlast b Hb Edec)|].
+            destruct (nth_error idom (N.to_nat (b_index b))) as [[d|]|]; try discriminate.
+            destruct (nth_error (c_blocks c) (N.to_nat d)) as [bd|] eqn:Ebd; [|discriminate].
+            exact (Hlast bd (nth_error_In _ _ Ebd) Edec). }
+          pose proof (djust_expr_sound s Hok cond C EC Hjc rc Erc []) as HC.
+          rewrite (range_is_constant_snd rc Ecc) in HC. exact HC.
+        - discriminate. }
+      intros i. unfold phi_fam.
+      apply (select_general (snd r) pick (fun a rho => match s a with Some G0 => G0 i rho | None => 0 end) Hconst).
+      intros r0. destruct (s (pick r0)) as [G0|] eqn:Ea; [|exfalso; exact (Hps r0 Ea)].
+      destruct (iter_opt_all _ r (var_range c (pick r0)) Hio (in_map _ _ _ (Hpa r0))) as (ra & Era & Hle).
+      apply (SemDeg_mono V line p (snd ra)); [exact Hle|]. apply (Hs (pick r0) G0 Ea ra Era).
     + eapply Hs; eauto.
   - intros y G Hy r Hr. unfold fupd in Hy. destruct (vname_eqb x y) eqn:E; [discriminate|]. eapply Hs; eauto.
 Qed.
@@ -406,7 +457,7 @@ Proof.
     + exact HF.
 Qed.
 
-Lemma freachable_ok s0 s : finit_ok s0 -> freachable V p sem2 sem1 call_sem name_code c s0 s -> fstore_ok s.
+Lemma freachable_ok s0 s : finit_ok s0 -> freachable V p sem2 sem1 call_sem name_code c idom s0 s -> fstore_ok s.
 Proof.
   intros Hi Hr. induction Hr as [|s1 s2 Hr IH Hst].
   - apply finit_store_ok. exact Hi.
@@ -414,7 +465,7 @@ Proof.
 Qed.
 
 Theorem justified_degrees_true s0 s e F r :
-  finit_ok s0 -> freachable V p sem2 sem1 call_sem name_code c s0 s ->
+  finit_ok s0 -> freachable V p sem2 sem1 call_sem name_code c idom s0 s ->
   djust_expr c e = true -> den s e = Some F -> expr_deg e = Some r -> forall i, SemDeg (snd r) (F i).
 Proof.
   intros Hi Hr Hj Hden Hd.
